@@ -87,7 +87,20 @@ def check_case(label, data, info, res: Result, meta_state):
     if shared is not None:
         # the same input through a Parser object that has already parsed every earlier
         # case of this shard (valid and invalid ones): the verdict must not depend on it
+        # a second long-lived Parser works alternately with it (on the previous input):
+        # whatever is kept at class or module level is then shared between two live objects
+        other = meta_state.get("other-parser")
+        if other is not None and meta_state.get("prev") is not None:
+            lab.parse(meta_state["prev"], parser=other)
+            res.count("alternating-parser-runs")
         o2 = lab.parse(data, parser=shared)
+        meta_state["n"] = meta_state.get("n", 0) + 1
+        if meta_state["n"] % 8 == 0 and o2.verdict() == o.verdict():
+            # the same input a second time on the same object
+            o3 = lab.parse(data, parser=shared)
+            res.count("same-input-twice-runs")
+            if o3.verdict() != o2.verdict():
+                o2 = o3
         res.monitor("oracle-C-reused-parser", o2.verdict() != o.verdict())
         if o2.verdict() != o.verdict():
             res.violation({"dir": "verdict-depends-on-parser-reuse",
@@ -162,6 +175,7 @@ def run_shard(tier, shard, res: Result):
     if reuse_applies(shard):
         lab.install_transition_recorder()
         st["shared-parser"] = lab.sl_parser.Parser()
+        st["other-parser"] = lab.sl_parser.Parser()
     n = 0
     for label, data, info in pwork.cases(shard):
         j, o = check_case(label, data, info, res, st)
